@@ -142,3 +142,11 @@ def memo_ecdsa():
         raise r[1]
     rebind(ecdsa.VerifyingKey, 'verify', verify)
     rebind(ecdsa.VerifyingKey, 'from_string', staticmethod(from_string))
+
+
+def halving_interval(n):
+    """subsidy halving interval -> n blocks (C02: chains that cross halvings; the real 1,050,000 is C16's subject)"""
+    from skepticoin import consensus
+    from . import refmodel
+    rebind(consensus, 'SUBSIDY_HALVING_INTERVAL', n)
+    refmodel.HALVING = n
